@@ -235,13 +235,13 @@ def pdu_len(d, buf):
         if fc == 8:
             return None if len(buf) < 3 else 5        # request data is one word for all listed subs (0: N words, unknown N)
         if fc in (15, 16):
-            return 7 + buf[6] if need(6) else None
+            return 6 + buf[5] if need(5) else None
         if fc in (20, 21):
             return 2 + buf[1] if need(1) else None
         if fc == 22:
             return 7
         if fc == 23:
-            return 11 + buf[10] if need(10) else None
+            return 10 + buf[9] if need(9) else None
         if fc == 24:
             return 3
         if fc == 43:
